@@ -169,8 +169,28 @@ def run(ctx):
                            "expected_after": None if e is None else [x.decode("utf-8", "replace") for x in e],
                            "explain": "C10_exact: the removed entries are exactly the matched ones, a directory only once empty; everything else unchanged"})
         followed_links(ctx, forest)
+        stderr_full(ctx, forest)
     finally:
         forest.close()
+
+
+def stderr_full(ctx, forest):
+    """an entry that cannot be removed "does not stop the walk" - also when the diagnostic itself cannot be written"""
+    import subprocess
+    base = os.path.join(forest.dir, b"sf")
+    os.makedirs(os.path.join(base, b"root", b"a", b"b"))
+    os.makedirs(os.path.join(base, b"root", b"c"))
+    for f in (b"root/a/b/keep", b"root/a/g", b"root/c/h"):
+        open(os.path.join(base, f), "wb").close()
+    with open("/dev/full", "wb") as full:
+        p = subprocess.run([fw.FIND, "root", "-sorted", "!", "-name", "keep", "-delete"], stdout=subprocess.DEVNULL, stderr=full, cwd=base, env=xc.ENV, timeout=60)
+    left = sorted(snapshot(base))
+    want = [b"root", b"root/a", b"root/a/b", b"root/a/b/keep"]
+    ctx.count(("stderr-full",), True, "stderr-full")
+    if left != want or p.returncode != 1:
+        ctx.violation("find root ! -name keep -delete with standard error on a full device: exit %d, left %s; expected exit 1 and %s"
+                      % (p.returncode, [x.decode() for x in left], [x.decode() for x in want]),
+                      {"property": "C10", "kind": "stderr-full", "exit": p.returncode, "left": [x.decode() for x in left], "expected_left": [x.decode() for x in want]})
 
 
 def followed_links(ctx, forest):
